@@ -132,6 +132,9 @@ class C17(Check):
         # one case = one raised multiset against all handlers (keeps the case count manageable)
         for r in raised:
             yield {'forest': None, 'raised': r, 'handlers': handlers}
+        # many specialisations alive at once (a long run with many kinds of failures)
+        for n in (40, 150, 400):
+            yield {'pressure': n}
 
     def strategy(self, tier):
         @st.composite
@@ -251,8 +254,44 @@ class C17(Check):
         out.nontrivial = len(want_objs) >= 2 or any(k['kind'] != 'raise' for k in kids)
         out.features.add('scope_built')
 
+    def pressure_case(self, case, out):
+        n = case['pressure']
+        if not (1 <= n <= 2000):
+            raise InvalidCase('pressure')
+        kept = Concurrent[KeyError]
+        kept2 = Concurrent[LookupError, ...]
+        failure = Concurrent(KeyError('k'))
+        classes = [type('E%d' % i, (Exception,), {}) for i in range(n)]
+        alive = []
+        for i, cls in enumerate(classes):
+            alive.append(Concurrent[cls] if i % 2 else type(Concurrent(cls())))
+            out.evals += 1
+            if i % 25 == 24 or i == n - 1:
+                if Concurrent[KeyError] is not kept or type(failure) is not kept or Concurrent[LookupError, ...] is not kept2 \
+                        or type(Concurrent(KeyError())) is not kept:
+                    out.fail('type_identity', 'forgotten_under_pressure',
+                             'with %d other specialisations alive, Concurrent[KeyError] is no longer the identical class' % (i + 1))
+                    break
+                try:
+                    raise Concurrent(KeyError('x'))
+                except kept:
+                    pass
+                except Concurrent:
+                    out.fail('except', 'missed_identical_class_under_pressure', 'with %d other specialisations alive, `except '
+                             'Concurrent[KeyError]` (a kept reference) no longer catches Concurrent(KeyError())' % (i + 1))
+                    break
+                if not isinstance(failure, kept2) or isinstance(Concurrent(alive[0].specialisations[0]()), kept):
+                    out.fail('isinstance', 'wrong_under_pressure', 'matching changed with %d specialisations alive' % (i + 1))
+                    break
+        out.nontrivial = n >= 129
+        out.features.add('pressure')
+
     def run_case(self, case, tier='quick'):
         out = Outcome()
+        if 'pressure' in case:
+            self.pressure_case(case, out)
+            out.evals = max(out.evals, 1)
+            return out
         if 'scope' in case:
             self.scope_case(case, out)
             out.evals = max(out.evals, 1)
